@@ -29,7 +29,7 @@ META = {
     ],
     "bounds": {"exponents": "non-zero integers in [-3,3] (solver-realised: the number formatter needs a concrete integer), plus 1/2, 1/4, 3/2 for the D/C round trip", "units per expression": "1-3", "formats": "D C P H L Lx, long and ~", "magnitude": "all rationals (symbolic, as placeholder literal)"},
     "enumerated_axes": [{"axis": "format x unit list", "exhaustive": False}, {"axis": "exponent values", "exhaustive": True}],
-    "outside_claim": ["content of Python's numeric mini-language and locale/babel output", "fractional exponents beyond those listed (float rendering)", "Measurement rendering (C19)", "ndarray magnitudes", "the '#' modifier (to_compact is C15's subject)"],
+    "outside_claim": ["content of Python's numeric mini-language and locale/babel output", "fractional exponents beyond those listed (float rendering)", "Measurement rendering (C19)", "ndarray magnitudes"],
 }
 
 FORMATS = ["D", "C", "P", "H", "L", "Lx"]
@@ -122,6 +122,92 @@ def h_roundtrip_quantity(eng, names, exps):
     eng.prove(Eq(q.magnitude, x), "quantity-unaltered-after-all-formats")
 
 
+def _norm(text):
+    """placeholder literals are fresh per rendering: name them by the number they stand for and
+    by the magnitude spec they were rendered with"""
+    import re
+
+    from ..sx.q import PLACEHOLDERS
+
+    def sub(m):
+        ent = PLACEHOLDERS.lookup(m.group(0))
+        if ent is None:
+            return m.group(0)
+        return "<%s|%s>" % (ent[0].sexpr() if hasattr(ent[0], "sexpr") else ent[0], ent[1])
+
+    return re.sub(r"9[0-9]{8}", sub, text)
+
+
+def _join(mstr, ustr):
+    """documented joining rule: magnitude, blank, unit; a leading '1 / ' of the unit text is
+    absorbed ('3 / s', never '3 1 / s'); nothing is appended for an empty unit text"""
+    if ustr == "":
+        return mstr
+    if ustr.startswith("1 / "):
+        return mstr + " " + ustr[2:]
+    return mstr + " " + ustr
+
+
+def h_spec_dispatch(eng, names, exps, fmt):
+    """the pieces of a format spec reach the right formatter: default_format, magnitude spec,
+    unit spec and the '#' modifier"""
+    from ..sx.stubs import qto_math_shim
+
+    ureg = regs.default(eng)
+    x = eng.real("x")
+    unit = ureg.UnitsContainer(dict(zip(names, exps)))
+    q = ureg.Quantity(x, unit)
+    u = q.units
+    fm = ureg.formatter
+    saved = fm.default_format
+    plain = fmt.replace("~", "") in ("D", "C", "P")
+    try:
+        want_q, want_u = _norm(format(q, fmt)), format(u, fmt)
+        # 1. default_format is what an empty spec means -- for str(), format(., '') and f-strings
+        fm.default_format = fmt
+        eng.prove(_norm(str(q)) == want_q, f"default_format:{fmt}:str(q)")
+        eng.prove(_norm(format(q, "")) == want_q, f"default_format:{fmt}:format(q,'')")
+        eng.prove(_norm(f"{q}") == want_q, f"default_format:{fmt}:fstring")
+        eng.prove(str(u) == want_u and format(u, "") == want_u, f"default_format:{fmt}:unit")
+        # an explicit spec still wins over the default
+        fm.default_format = "~C" if fmt != "~C" else "P"
+        eng.prove(_norm(format(q, fmt)) == want_q, f"explicit-spec-wins:{fmt}")
+        fm.default_format = saved
+        # 2. magnitude spec + unit spec: the magnitude is rendered with exactly the numeric part
+        for mspec in (".3f", "+.2e", "08.1f", ""):
+            text = _norm(format(q, mspec + fmt))
+            mag = _norm(format(x, mspec)) if mspec else None
+            if plain and mspec:
+                eng.prove(text == _join(mag, want_u), f"magnitude-spec:{mspec}{fmt}")
+            elif mspec == ".3f":
+                # HTML/LaTeX decorate the number (exponent notation is rewritten): only the
+                # fixed-point rendering is required to appear verbatim
+                eng.prove(mag in text, f"magnitude-spec-present:{mspec}{fmt}")
+        # the same with concrete magnitudes (Python's own formatting is the reference)
+        for m in (Fraction(5, 2), Fraction(-1234567, 1000), Fraction(1, 3)):
+            qc = ureg.Quantity(eng.num(m), unit)
+            for mspec in (".3f", "+.2e", "08.1f"):
+                if plain:
+                    eng.prove(format(qc, mspec + fmt) == _join(format(m, mspec), want_u), f"magnitude-spec-concrete:{mspec}{fmt}")
+                elif mspec == ".3f":
+                    eng.prove(format(m, mspec) in format(qc, mspec + fmt), f"magnitude-spec-concrete-present:{mspec}{fmt}")
+        # 3. '#' = to_compact() first, wherever the '#' comes from
+        with qto_math_shim():
+            for m in (Fraction(5, 2) / 10**9, Fraction(1500), Fraction(1, 4), Fraction(12_000_000), Fraction(-32_000)):
+                qc = ureg.Quantity(eng.num(m), unit)
+                want_c = format(qc.to_compact(), fmt)
+                eng.prove(format(qc, "#" + fmt) == want_c, f"compact-modifier:#{fmt}")
+                eng.prove(format(qc, fmt + "#") == want_c, f"compact-modifier:{fmt}#")
+                fm.default_format = "#" + fmt
+                try:
+                    eng.prove(str(qc) == want_c and format(qc, "") == want_c, f"compact-modifier-from-default_format:#{fmt}")
+                finally:
+                    fm.default_format = saved
+                eng.prove(Eq(qc.magnitude, eng.num(m)) and qc._units == unit, "compact-modifier-leaves-quantity")
+    finally:
+        fm.default_format = saved
+
+
 def h_dimensionless(eng):
     ureg = regs.default(eng)
     u = ureg.Unit("")
@@ -134,7 +220,7 @@ def h_dimensionless(eng):
     eng.prove(Eq(back.magnitude, x) and back.dimensionless, "dimensionless-quantity-roundtrip")
 
 
-MIN_DISCHARGED = {"H09.a": 5000, "H09.b": 1500}
+MIN_DISCHARGED = {"H09.a": 5000, "H09.b": 1500, "H09.d": 1000}
 
 
 def cases(tier, seed):
@@ -162,5 +248,10 @@ def cases(tier, seed):
     for names in rt[: (20 if big else 8)]:
         exps = [rnd.choice([-3, -2, -1, 1, 2, 3]) for _ in names]
         out.append(Case("H09.b", f"quantity:{'*'.join(f'{n}^{e}' for n, e in zip(names, exps))}", M, "h_roundtrip_quantity", {"names": names, "exps": exps}, validate=1))
+    sd = [(["meter"], [1]), (["second"], [-1]), (["kelvin", "second"], [-1, -2]), (["newton", "meter"], [1, 1]), (["gram", "second"], [1, -2]), (["kilometer", "hour"], [1, -1])]
+    sd += [(nm, [rnd.choice([-2, -1, 1, 2]) for _ in nm]) for nm in rt[4 : (16 if big else 7)]]
+    for names, exps in sd:
+        for fmt in ("D", "~D", "C", "~C", "P", "~P", "H", "~H", "L", "~L", "Lx"):
+            out.append(Case("H09.d", f"{fmt}:{'*'.join(f'{n}^{e}' for n, e in zip(names, exps))}", M, "h_spec_dispatch", {"names": names, "exps": exps, "fmt": fmt}, validate=1))
     out.append(Case("H09.c", "dimensionless", M, "h_dimensionless", {}, validate=1))
     return out
